@@ -685,6 +685,9 @@ func vInitOpt(app *App, d *memDCS) {
 // vPanicSite names the innermost mysync (non-test) function on the stack of a recovered panic.
 func vPanicSite() string {
 	lines := strings.Split(string(debug.Stack()), "\n")
+	if os.Getenv("VERIF_STACK") != "" {
+		fmt.Println(string(debug.Stack()))
+	}
 	name := func(fn string) string {
 		f := fn
 		if j := strings.LastIndex(f, "/"); j >= 0 {
